@@ -6,6 +6,7 @@
 typedef struct S { long a; int b; int c; } S;          /* 16 bytes: returned in rax:rdx */
 typedef struct L { long a[3]; } L;                     /* 24 bytes: memory class, odd number of stack slots */
 struct B { int x : 5; int y : 7; long z : 20; };
+typedef struct E { long double v; } E;                /* 16 bytes, class X87: returned in %st0 */
 #define gi FN(gi)
 #define gl FN(gl)
 #define gf FN(gf)
@@ -63,6 +64,26 @@ struct B { int x : 5; int y : 7; long z : 20; };
 #define k8 FN(k8)
 #define k9d FN(k9d)
 #define k7e FN(k7e)
+#define mi FN(mi)
+#define ni FN(ni)
+#define ml FN(ml)
+#define nl FN(nl)
+#define mf FN(mf)
+#define nf FN(nf)
+#define md FN(md)
+#define nd FN(nd)
+#define me FN(me)
+#define ne FN(ne)
+#define mp FN(mp)
+#define np FN(np)
+#define mS FN(mS)
+#define nS FN(nS)
+#define mL FN(mL)
+#define nL FN(nL)
+#define fc FN(fc)
+#define fb FN(fb)
+#define fs FN(fs)
+#define fE FN(fE)
 #define cvb FN(cvb)
 #define crb FN(crb)
 #define cvc FN(cvc)
@@ -165,3 +186,25 @@ int k7(int a, int b, int c, int d, int e, int f, int g) { return a - g; }       
 int k8(int a, int b, int c, int d, int e, int f, int g, int h) { return g - h; }       /* 2 stack arguments */
 double k9d(double a, double b, double c, double d, double e, double f, double g, double h, double i) { return a - i; }
 long double k7e(int a, int b, int c, int d, int e, int f, int g, long double x) { return x - g; }
+/* a long double argument before / after an argument of every type (the other argument is evaluated while the long double
+ * one is already pushed); narrow and X87-class return types */
+int mi(int a, long double b) { return hi(a) + (b > 1); }
+int ml(long a, long double b) { return hl(a) + (b > 1); }
+int mf(float a, long double b) { return hf(a) + (b > 1); }
+int md(double a, long double b) { return hd(a) + (b > 1); }
+int me(long double a, long double b) { return he(a) + (b > 1); }
+int mp(int *a, long double b) { return hp(a) + (b > 1); }
+int mS(S a, long double b) { return hS(a) + (b > 1); }
+int mL(L a, long double b) { return hL(a) + (b > 1); }
+int ni(long double b, int a) { return hi(a) - (b > 1); }
+int nl(long double b, long a) { return hl(a) - (b > 1); }
+int nf(long double b, float a) { return hf(a) - (b > 1); }
+int nd(long double b, double a) { return hd(a) - (b > 1); }
+int ne(long double b, long double a) { return he(a) - (b > 1); }
+int np(long double b, int *a) { return hp(a) - (b > 1); }
+int nS(long double b, S a) { return hS(a) - (b > 1); }
+int nL(long double b, L a) { return hL(a) - (b > 1); }
+char fc(void) { return gi[3] + 40; }
+_Bool fb(void) { return gi[3]; }
+short fs(void) { return gi[3] - 300; }
+E fE(void) { E x; x.v = ge[3]; return x; }
